@@ -55,6 +55,7 @@ class Interp:
         self.builtins = builtins_model.make_builtins(self)
         self.bm = builtins_model
         self.strip_fn = z3.Function("strip", STR, STR)
+        self.strip_used = True
         self.join_cache = {}
         self.line_hits = set()
         self.prints = 0
@@ -265,7 +266,7 @@ class Interp:
             if z3.is_arith(v):
                 return self.ctx.decide(v != 0, note)
             if v.sort() == STR:
-                return self.ctx.decide(z3.Length(v) > 0, note)
+                return self.ctx.decide(core.S_LEN(v) > 0, note)
             raise Unsupported("truthiness of %s" % v.sort())
         if isinstance(v, AList):
             n = self.bm.list_len(self, v)
@@ -1028,11 +1029,7 @@ class Interp:
     def strip_of(self, s):
         """str.strip() on a symbolic string: uninterpreted, idempotent (A4)"""
         ctx = self.ctx
-        if not getattr(ctx, "_strip_ax", False):
-            ctx._strip_ax = True
-            v = z3.String("?s")
-            ctx.assume(z3.ForAll([v], self.strip_fn(self.strip_fn(v)) == self.strip_fn(v),
-                                 patterns=[self.strip_fn(self.strip_fn(v))]))
+        self.strip_used = True
         r = self.strip_fn(s)
         ctx.assume(self.strip_fn(r) == r)
         return r
@@ -1103,8 +1100,11 @@ class Interp:
             ok, why = listops.same_term(self, a.term, b.term)
             if not ok:
                 if isinstance(why, tuple):
-                    return ok, (path + ": " + why[0], why[1])
+                    return ok, (path + ": " + why[0],) + tuple(why[1:])
                 return ok, (path + ": " + str(why), None)
+            if a.term is not b.term and a.term.etype is not None and b.term.etype is not None:
+                ctx.assume(a.term.length() == b.term.length())
+                ctx.links.append((a.term, b.term))
             return True, None
         if isinstance(a, (tuple, NT, AList)) and isinstance(b, (tuple, NT, AList)):
             ia, ib = self.bm.tuple_items(self, a), self.bm.tuple_items(self, b)
